@@ -948,4 +948,135 @@ Proof.
     + intros He. destruct (upd_err _ _ _ He) as [_ Hk]. destruct (nget nd (info s3)) as [i3|] eqn:Ei3; [|congruence].
       rewrite (rd_upd_same i_inds nd _ s3 i3 Ei3). reflexivity.
 Qed.
+
+Lemma g_inds_A s nd : InvC n s -> PAe n s -> good_node n nd ->
+  PAe n (fst (g_inds n s nd)) /\ irl s (fst (g_inds n s nd)) /\
+  (err (fst (g_inds n s nd)) = false -> rd i_inds (fst (g_inds n s nd)) nd = Some (snd (g_inds n s nd))).
+Proof.
+  intros HI HP HG. destruct (get_inds_A (fuel n s) s nd HI HP HG) as (A&B&C). split; [exact A|]. split; [eapply irlB_irl, B|exact C].
+Qed.
+Lemma PAe_err s : PAe n (set_err s).
+Proof. intros He. discriminate. Qed.
+Lemma irl_fields s s' : info s' = info s -> children s' = children s -> sliced s' = sliced s ->
+  (err s = true -> err s' = true) -> irl s s'.
+Proof. apply srel_fields. intros; apply Ri_refl. Qed.
+
+(* monotone frame of the recipe getters: nothing that is cached is ever replaced *)
+Definition Rm (LV : node -> legs -> Prop) (nd : node) (i i' : ninfo) : Prop :=
+  (forall e, i_eq i = Some e -> i_eq i' = Some e) /\ (forall e, i_can_dot i = Some e -> i_can_dot i' = Some e) /\
+  (forall e, i_tdaxes i = Some e -> i_tdaxes i' = Some e) /\ (forall e, i_tdperm i = Some e -> i_tdperm i' = Some e) /\
+  (forall v, i_inds i = Some v -> i_inds i' = Some v) /\ legs_step LV nd (i_legs i) (i_legs i').
+Lemma Rm_refl LV q i : Rm LV q i i.
+Proof. unfold Rm. repeat split; auto. apply legs_step_refl. Qed.
+Lemma Rm_trans LV q i j k : Rm LV q i j -> Rm LV q j k -> Rm LV q i k.
+Proof.
+  intros (A1&A2&A3&A4&A5&A6) (B1&B2&B3&B4&B5&B6). unfold Rm. repeat split; auto. eapply legs_step_trans; eassumption.
+Qed.
+Lemma Ri_Rm LV q i j : Ri LV q i j -> Rm LV q i j.
+Proof. intros ((A1&A2&A3&A4)&A5&A6). unfold Rm. repeat split; try (intros e He; congruence); auto. Qed.
+Definition mrl (s s' : tstate) : Prop := srel (Rm (fresh_ok n (sliced s))) s s'.
+Lemma mrl_refl s : mrl s s.
+Proof. apply srel_refl. intros; apply Rm_refl. Qed.
+Lemma mrl_trans s1 s2 s3 : mrl s1 s2 -> mrl s2 s3 -> mrl s1 s3.
+Proof.
+  unfold mrl. intros H1 H2. eapply srel_trans; [intros q i j k; apply Rm_trans|exact H1|].
+  destruct H1 as (_&_&E&_). rewrite <- E. exact H2.
+Qed.
+Lemma irl_mrl s s' : irl s s' -> mrl s s'.
+Proof. apply srel_weaken. intros q i j. apply Ri_Rm. Qed.
+Lemma mrl_fields s s' : info s' = info s -> children s' = children s -> sliced s' = sliced s ->
+  (err s = true -> err s' = true) -> mrl s s'.
+Proof. apply srel_fields. intros; apply Rm_refl. Qed.
+Lemma mrl_err s s' : mrl s s' -> err s' = false -> err s = false.
+Proof. intros (_&_&_&E) H. destruct (err s); [rewrite E in H by reflexivity; discriminate|reflexivity]. Qed.
+Lemma g_can_dot_A s nd : InvC n s -> PAe n s -> good_node n nd ->
+  PAe n (fst (g_can_dot n s nd)) /\ mrl s (fst (g_can_dot n s nd)).
+Proof.
+  intros HI HP HG. unfold g_can_dot. destruct (rd i_can_dot s nd) as [b|] eqn:Er; [split; [exact HP|apply mrl_refl]|].
+  destruct (nget nd (children s)) as [[l r]|] eqn:E; [|split; [apply PAe_err|apply mrl_fields; cbn; auto]].
+  pose proof (InvC_chok s HI) as Hc.
+  pose proof (g_legs_crel n HN s nd Hc) as H1. destruct (g_legs n s nd) as [s1 sp]. cbn [fst] in H1.
+  pose proof (g_legs_crel n HN s1 l (crel_chok n _ _ H1 Hc)) as H2. destruct (g_legs n s1 l) as [s2 sl]. cbn [fst] in H2.
+  pose proof (crel_trans n _ _ _ H1 H2) as H12.
+  pose proof (g_legs_crel n HN s2 r (crel_chok n _ _ H12 Hc)) as H3. destruct (g_legs n s2 r) as [s3 sr]. cbn [fst] in H3.
+  pose proof (crel_trans n _ _ _ H12 H3) as H13. cbn [fst].
+  split.
+  - apply PAe_upd_keep; [apply (PAe_crel n s s3 HP H13)|]. intros i. cbn. auto.
+  - eapply mrl_trans; [apply irl_mrl, crel_irl, H13|]. apply srel_upd; [intros; apply Rm_refl|].
+    intros i Hi. unfold Rm. cbn. repeat split; auto; [|apply legs_step_refl].
+    intros e He. assert (Er3 : rd i_can_dot s3 nd = None).
+    { rewrite (srel_rd _ i_can_dot s s3 nd H13); [exact Er|]. intros q a b ((_&_&Ec&_)&_). exact Ec. }
+    rewrite (rd_None_get i_can_dot s3 nd i Er3 Hi) in He. discriminate.
+Qed.
+
+(* the three recipes derived from index orders share their prologue *)
+Lemma inds3_A s nd l r : InvC n s -> PAe n s -> good_node n nd -> nget nd (children s) = Some (l, r) ->
+  let '(s1, li) := g_inds n s l in let '(s2, ri) := g_inds n s1 r in let '(s3, pi) := g_inds n s2 nd in
+  InvC n s2 /\ PAe n s2 /\ irl s s2 /\ (err s2 = false -> rd i_inds s2 l = Some li /\ rd i_inds s2 r = Some ri) /\
+  InvC n s3 /\ PAe n s3 /\ irl s s3 /\
+  (err s3 = false -> rd i_inds s3 l = Some li /\ rd i_inds s3 r = Some ri /\ rd i_inds s3 nd = Some pi).
+Proof.
+  intros HI HP HG E. destruct (entry_good n s nd l r HI E) as (_ & Gl & Gr).
+  destruct (g_inds_A s l HI HP Gl) as (P1 & R1 & C1). pose proof (inv_g_inds n HN Hout s l HI Gl) as I1.
+  destruct (g_inds n s l) as [s1 li]. cbn [fst snd] in *.
+  destruct (g_inds_A s1 r I1 P1 Gr) as (P2 & R2 & C2). pose proof (inv_g_inds n HN Hout s1 r I1 Gr) as I2.
+  destruct (g_inds n s1 r) as [s2 ri]. cbn [fst snd] in *.
+  destruct (g_inds_A s2 nd I2 P2 HG) as (P3 & R3 & C3). pose proof (inv_g_inds n HN Hout s2 nd I2 HG) as I3.
+  destruct (g_inds n s2 nd) as [s3 pi]. cbn [fst snd] in *.
+  assert (Hlr : err s2 = false -> rd i_inds s2 l = Some li /\ rd i_inds s2 r = Some ri).
+  { intros He2. split; [apply (irl_inds _ _ l li R2), C1, (irl_err _ _ R2 He2)|apply C2, He2]. }
+  split; [exact I2|]. split; [exact P2|]. split; [eapply irl_trans; eassumption|]. split; [exact Hlr|].
+  split; [exact I3|]. split; [exact P3|]. split; [eapply irl_trans; [eapply irl_trans; eassumption|exact R3]|].
+  intros He3. destruct (Hlr (irl_err _ _ R3 He3)) as [A B].
+  split; [apply (irl_inds _ _ l li R3 A)|]. split; [apply (irl_inds _ _ r ri R3 B)|apply C3, He3].
+Qed.
+Lemma mrl_upd_new {A} (fld : ninfo -> option A) nd f s :
+  rd fld s nd = None ->
+  (forall i, fld i = None -> Rm (fresh_ok n (sliced s)) nd i (f i)) -> mrl s (upd_info nd f s).
+Proof.
+  intros Er Hf. apply srel_upd; [intros; apply Rm_refl|]. intros i Hi. apply Hf. apply (rd_None_get fld s nd i Er Hi).
+Qed.
+Lemma irl_rd_same {A} (fld : ninfo -> option A) s s' nd :
+  irl s s' -> (forall LV q i j, Ri LV q i j -> fld j = fld i) -> rd fld s' nd = rd fld s nd.
+Proof. intros H HF. apply (srel_rd _ fld s s' nd H). intros q i j. apply HF. Qed.
+
+Lemma g_tdaxes_A s nd : InvC n s -> PAe n s -> good_node n nd ->
+  PAe n (fst (g_tdaxes n s nd)) /\ mrl s (fst (g_tdaxes n s nd)).
+Proof.
+  intros HI HP HG. unfold g_tdaxes. destruct (rd i_tdaxes s nd) as [b|] eqn:Er; [split; [exact HP|apply mrl_refl]|].
+  destruct (nget nd (children s)) as [[l r]|] eqn:E; [|split; [apply PAe_err|apply mrl_fields; cbn; auto]].
+  pose proof (inds3_A s nd l r HI HP HG E) as H.
+  destruct (g_inds n s l) as [s1 li]. destruct (g_inds n s1 r) as [s2 ri]. destruct (g_inds n s2 nd) as [s3 pi].
+  destruct H as (I2&P2&R2&C2&_). cbn [fst]. split.
+  - apply PAe_upd_keep; [exact P2|]. intros i. cbn. auto.
+  - eapply mrl_trans; [apply irl_mrl, R2|]. apply (mrl_upd_new i_tdaxes).
+    + rewrite (irl_rd_same i_tdaxes s s2 nd R2); [exact Er|]. intros LV q i j ((_&_&Ec&_)&_). exact Ec.
+    + intros i Hn. unfold Rm. cbn. repeat split; auto; [intros e He; congruence|apply legs_step_refl].
+Qed.
+Lemma g_tdperm_A s nd : InvC n s -> PAe n s -> good_node n nd ->
+  PAe n (fst (g_tdperm n s nd)) /\ mrl s (fst (g_tdperm n s nd)).
+Proof.
+  intros HI HP HG. unfold g_tdperm. destruct (rd i_tdperm s nd) as [b|] eqn:Er; [split; [exact HP|apply mrl_refl]|].
+  destruct (nget nd (children s)) as [[l r]|] eqn:E; [|split; [apply PAe_err|apply mrl_fields; cbn; auto]].
+  pose proof (inds3_A s nd l r HI HP HG E) as H.
+  destruct (g_inds n s l) as [s1 li]. destruct (g_inds n s1 r) as [s2 ri]. destruct (g_inds n s2 nd) as [s3 pi].
+  destruct H as (_&_&_&_&I3&P3&R3&C3). cbn [fst]. split.
+  - apply PAe_upd_keep; [exact P3|]. intros i. cbn. auto.
+  - eapply mrl_trans; [apply irl_mrl, R3|]. apply (mrl_upd_new i_tdperm).
+    + rewrite (irl_rd_same i_tdperm s s3 nd R3); [exact Er|]. intros LV q i j ((_&_&_&Ec)&_). exact Ec.
+    + intros i Hn. unfold Rm. cbn. repeat split; auto; [intros e He; congruence|apply legs_step_refl].
+Qed.
+Lemma g_eq_A s nd : InvC n s -> PAe n s -> good_node n nd ->
+  PAe n (fst (g_eq n s nd)) /\ mrl s (fst (g_eq n s nd)).
+Proof.
+  intros HI HP HG. unfold g_eq. destruct (rd i_eq s nd) as [b|] eqn:Er; [split; [exact HP|apply mrl_refl]|].
+  destruct (nget nd (children s)) as [[l r]|] eqn:E; [|split; [apply PAe_err|apply mrl_fields; cbn; auto]].
+  pose proof (inds3_A s nd l r HI HP HG E) as H.
+  destruct (g_inds n s l) as [s1 li]. destruct (g_inds n s1 r) as [s2 ri]. destruct (g_inds n s2 nd) as [s3 pi].
+  destruct H as (_&_&_&_&I3&P3&R3&C3). cbn [fst]. split.
+  - apply PAe_upd_keep; [exact P3|]. intros i. cbn. auto.
+  - eapply mrl_trans; [apply irl_mrl, R3|]. apply (mrl_upd_new i_eq).
+    + rewrite (irl_rd_same i_eq s s3 nd R3); [exact Er|]. intros LV q i j ((Ec&_)&_). exact Ec.
+    + intros i Hn. unfold Rm. cbn. repeat split; auto; [intros e He; congruence|apply legs_step_refl].
+Qed.
 End InvA2.
